@@ -69,14 +69,14 @@ theorem sendRequest_cases2 (s : Streams) (isHead : Bool) (fields : List Hpack.Fi
   repeat (first | (left; rfl) | (right; exact ⟨by simp_all, rfl⟩) | split)
 
 /-- queue and role unchanged -/
-def QS (s s' : Streams) : Prop := s'.recv.pendingAccept = s.recv.pendingAccept ∧ s'.counts.isServer = s.counts.isServer
-theorem QS.trans {a b c : Streams} (h1 : QS a b) (h2 : QS b c) : QS a c := ⟨h2.1.trans h1.1, h2.2.trans h1.2⟩
-theorem AL.qs {ks : List Nat} {s s' : Streams} (h : AL ks s s') : QS s s' := ⟨h.queue, h.srv⟩
+def QSa (s s' : Streams) : Prop := s'.recv.pendingAccept = s.recv.pendingAccept ∧ s'.counts.isServer = s.counts.isServer
+theorem QSa.trans {a b c : Streams} (h1 : QSa a b) (h2 : QSa b c) : QSa a c := ⟨h2.1.trans h1.1, h2.2.trans h1.2⟩
+theorem AL.qsa {ks : List Nat} {s s' : Streams} (h : AL ks s s') : QSa s s' := ⟨h.queue, h.srv⟩
 
 theorem sendRequestCore_qs (s : Streams) (isHead : Bool) (fields : List Hpack.Field) (eos : Bool) :
-    QS s (sendRequestCore isHead fields eos s).1 := by
+    QSa s (sendRequestCore isHead fields eos s).1 := by
   unfold sendRequestCore
-  have h1 := (sendOpenId_al s).qs
+  have h1 := (sendOpenId_al s).qsa
   generalize s.sendOpenId = p at h1
   obtain ⟨s1, r⟩ := p
   cases r with
@@ -84,15 +84,15 @@ theorem sendRequestCore_qs (s : Streams) (isHead : Bool) (fields : List Hpack.Fi
   | ok id =>
     simp only []
     generalize hsP : (if s1.store.contains id = true then s1.panic _ else s1) = sP
-    have hP : QS s sP := by
+    have hP : QSa s sP := by
       rw [← hsP]; split
-      · exact h1.trans (panic_al (ks := []) _ _).qs
+      · exact h1.trans (panic_al (ks := []) _ _).qsa
       · exact h1
     generalize (if isHead = true then _ else Stream.new id s1.actions.send.initWindowSz s1.recv.initWindowSz) = st
-    have h2 : QS s ({ sP with store := (sP.store.insert st).1 } : Streams) := hP
+    have h2 : QSa s ({ sP with store := (sP.store.insert st).1 } : Streams) := hP
     generalize hsh : Streams.sendHeaders _ (sP.store.insert st).2 eos fields = q
     obtain ⟨s3, r3⟩ := q
-    have h3 : QS s s3 := h2.trans (AL.of_fst_eq hsh (sendHeaders_al _ _ _ _)).qs
+    have h3 : QSa s s3 := h2.trans (AL.of_fst_eq hsh (sendHeaders_al _ _ _ _)).qsa
     cases r3 with
     | error e => exact h3
     | ok u =>
